@@ -253,7 +253,7 @@ func CopyFrontEnd(repoCopy string) error {
 
 // BuildPeg builds the real peg binary from a repository copy.
 func (e *Env) BuildPeg(repoCopy, out string, race bool) error {
-	args := []string{"build", "-o", out}
+	args := []string{"build", "-trimpath", "-o", out}
 	env := e.GoEnv()
 	if race {
 		args = append(args, "-race")
